@@ -1,6 +1,7 @@
 package main
 
 import (
+	"os"
 	"fmt"
 	"go/ast"
 	"go/types"
@@ -21,6 +22,43 @@ type WTarget struct {
 	Any      bool
 	Except   []string // with Any: ghost variables that are not written
 	ElemBase Term     // all element objects selem(ElemBase, _) of a slice of structs (1-D field regions)
+	ConstLen int      // with Lo/Hi: Hi - Lo when it is a small literal constant (s[e:e+8]), else 0
+}
+
+// constSliceLen recognises s[e : e+N] and s[:N] / s[0:N] with a literal N.
+func (fc *FnCtx) constSliceLen(x *ast.SliceExpr) int {
+	lit := func(e ast.Expr) (int, bool) {
+		b, ok := e.(*ast.BasicLit)
+		if !ok {
+			return 0, false
+		}
+		n := 0
+		for _, c := range b.Value {
+			if c < '0' || c > '9' || n > 1000 {
+				return 0, false
+			}
+			n = n*10 + int(c-'0')
+		}
+		return n, true
+	}
+	if x.High == nil {
+		return 0
+	}
+	if n, ok := lit(x.High); ok {
+		if x.Low == nil {
+			return n
+		}
+		if l, ok := lit(x.Low); ok && l <= n {
+			return n - l
+		}
+		return 0
+	}
+	if be, ok := x.High.(*ast.BinaryExpr); ok && be.Op.String() == "+" && x.Low != nil {
+		if n, ok := lit(be.Y); ok && fc.eng.exprText(be.X) == fc.eng.exprText(x.Low) {
+			return n
+		}
+	}
+	return 0
 }
 
 // evalTargets evaluates a modifies clause to write targets.
@@ -157,7 +195,7 @@ func (fc *FnCtx) evalTargets(x ast.Expr, env *Env) []WTarget {
 		}
 		var ts []WTarget
 		for _, lf := range cellLeaves(et) {
-			ts = append(ts, WTarget{Region: "elem<" + leafTypeName(et) + ">" + lf.suffix, Idx: []Term{a.Sl.Base}, Lo: plus(a.Sl.Off, lo), Hi: plus(a.Sl.Off, hi)})
+			ts = append(ts, WTarget{Region: "elem<" + leafTypeName(et) + ">" + lf.suffix, Idx: []Term{a.Sl.Base}, Lo: plus(a.Sl.Off, lo), Hi: plus(a.Sl.Off, hi), ConstLen: fc.constSliceLen(x)})
 		}
 		return ts
 	}
@@ -253,6 +291,18 @@ func (fc *FnCtx) havoc(st *State, ts []WTarget) {
 				hv := vc.sc.fresh("hv", arraySort(ri.nidx-1, ri.leaf))
 				vc.typeInv(t.Region, hv, ri.nidx-1)
 				vc.setRegion(st, t.Region, ri.nidx, ri.leaf, app("store", cur, t.Idx[0], hv))
+			case t.Lo != "" && t.ConstLen > 0 && t.ConstLen <= 16 && os.Getenv("VERIF_CONSTLEN_HAVOC") != "":
+				// (experimental, off by default: it did not make the Salamander proofs more stable)
+				// a short range of literal length: the new row is the old one with that many
+				// unknown values stored, which needs no quantified frame fact
+				row := app("select", cur, t.Idx[0])
+				for j := 0; j < t.ConstLen; j++ {
+					v := vc.sc.fresh("hvb", ri.leaf)
+					vc.typeInv(t.Region, v, 0)
+					row = app("store", row, plus(t.Lo, itoa(int64(j))), v)
+				}
+				a := vc.sc.define("hvrow", arraySort(1, ri.leaf), row)
+				vc.setRegion(st, t.Region, ri.nidx, ri.leaf, app("store", cur, t.Idx[0], a))
 			case t.Lo != "":
 				a := vc.sc.fresh("hv", arraySort(1, ri.leaf))
 				vc.typeInv(t.Region, a, 1)
